@@ -538,12 +538,12 @@ def r6_tags(program, rep):
 
 def check(program, rep):
     program.module("rig.bitfield")
-    r1_scan(program, rep)
-    r2_explicit(program, rep)
-    r3_masks(program, rep)
-    r4_order(program, rep)
-    r5_widths(program, rep)
-    r6_tags(program, rep)
+    rep.guard("C08-R1", r1_scan, program, rep)
+    rep.guard("C08-R2", r2_explicit, program, rep)
+    rep.guard("C08-R3", r3_masks, program, rep)
+    rep.guard("C08-R4", r4_order, program, rep)
+    rep.guard("C08-R5", r5_widths, program, rep)
+    rep.guard("C08-R6", r6_tags, program, rep)
     rep.floor("C08-R4", 5)
     return finish(rep, program, EXPLANATION, NOT_DECIDED,
                   trusted=["ORDTYPE evaluator", "LININV engine"])
